@@ -7,7 +7,9 @@ and the hydrogen rule, zero reactivities, terminal handling.  Seed determinism i
 HISTORIES: construct(seed); sample(w) — another construct-and-sample — construct(seed); sample(w)
 again in one process with the SAME caller-owned fragment dict and tables, and the same call in fresh
 interpreters under other PYTHONHASHSEED values; the molecules must be identical."""
+import contextlib
 import hashlib
+import io
 import json
 import os
 import subprocess
@@ -33,6 +35,69 @@ def canon(obs):
 
 def digest(obs):
     return hashlib.sha1(canon(obs).encode()).hexdigest()
+
+
+# ------------------------------------------------------------------------------- histories on the shared generator
+def _construct(case, objects, seed, **over):
+    import cgsmiles.sample as smod
+    fd, kwargs = objects
+    kw = dict(kwargs, seed=seed)
+    kw.update(over)
+    if case.get('ctor', 'explicit') in ('explicit', 'fromstr_explicit') or not case['aa']:
+        kw['all_atom'] = case['aa']
+    return smod.MoleculeSampler(fd, **kw)
+
+
+def _sample(sampler, target, start):
+    """one sample() call: (digest of the molecule or of the exception class, the draws it made)"""
+    rec = c16.PickRecorder()
+    with contextlib.redirect_stdout(io.StringIO()):
+        with rec:
+            try:
+                obs = {'final': c16.graph_obs(sampler.sample(target, start_fragment=start))}
+            except Exception as exc:
+                obs = {'exc': [type(exc).__name__]}
+    return digest(obs), [list(p) for p in rec.picks]
+
+
+def histories(case, objects):
+    """what the history machine of Sample/SampleHistoryFail.v says about the module-level generator, checked on
+    the implementation (theorems C17_interleaved_sample, C17_sample_after_early_failure, C17_sample_after_failed):
+      [construct A(s); construct B(s'); sample A  ==  construct A(s'); sample,
+       construct A(s); sample(unknown start fragment: KeyError, no draw); sample  ==  construct A(s); sample,
+       construct A(s); sample (may fail half-way); sample  ==  construct A(s); <the draws of the first call>; sample]"""
+    import random as pyrandom
+    t, st, seed = case['target'], case.get('start'), case['seed']
+    seed_b = seed + 101
+    flags = []
+    try:
+        a = _construct(case, objects, seed)
+        try:
+            _construct(case, objects, seed_b, polymer_reactivities={})
+        except Exception:
+            pass                      # the reseeding is the constructor's first statement
+        d1, p1 = _sample(a, t, st)
+        d2, p2 = _sample(_construct(case, objects, seed_b), t, st)
+        flags.append(d1 == d2 and p1 == p2)
+        d0, p0 = _sample(_construct(case, objects, seed), t, st)
+        a = _construct(case, objects, seed)
+        _, pe = _sample(a, t, '\x00no such fragment')
+        d4, p4 = _sample(a, t, st)
+        flags.append(pe == [] and d4 == d0 and p4 == p0)
+        a = _construct(case, objects, seed)
+        d5, p5 = _sample(a, t, st)
+        d5b, p5b = _sample(a, t, st)
+        a = _construct(case, objects, seed)
+        for n, _i, w in p5:
+            if w is None:
+                pyrandom.choice(range(n))
+            else:
+                pyrandom.choices(range(n), weights=w)
+        d6, p6 = _sample(a, t, st)
+        flags.append(d5 == d0 and p5 == p0 and d6 == d5b and p6 == p5b)
+    except Exception:
+        flags.append(False)
+    return flags
 
 
 _CHILD = r'''
@@ -127,6 +192,8 @@ class C17(c16.SamplerProp):
         except Exception as exc:
             return {'skip': 'read_fragments:' + type(exc).__name__}
         impl = c16.run_sampler(case, objects)
+        if 'init' in impl and not impl.get('unrecorded'):
+            impl['hist'] = histories(case, objects)
         if 'final' not in impl:
             return impl
         d0 = digest(impl)
